@@ -185,8 +185,24 @@ def _eval(case):
         return ["raised %s: %s | %s" % (type(ex).__name__, ex, traceback.format_exc()[-400:])], float("inf"), False, 1
 
 
+def _prelude(kind):
+    """history carried by every case: all Jacobian methods are first called on a fixed 'polluting' operand pair, so that data
+    left behind by an earlier call (module-level scratch arrays, memoised blocks) would show up in the case itself."""
+    comps = {"R2": [11.0, -7.0], "R3": [11.0, -7.0, 5.0], "SE2": [11.0, -7.0, 2.2], "SE3": [11.0, -7.0, 5.0] + A.unit([0.4, -0.5, 0.3, -0.7])}
+    a = I.mk_pose(kind, comps[kind])
+    b = I.mk_pose(kind, [x * 0.5 + 1.0 for x in comps[kind][: G.DIM[kind]]] + comps[kind][G.DIM[kind] :])
+    pt = I.mk_pose(I.POINT_OF[kind], [3.0, -4.0, 5.0][: G.DIM[kind]])
+    for name, _, _, _ in BINARY:
+        getattr(a, name)(b)
+    a.jacobian_boxplus()
+    a.jacobian_inverse()
+    a.jacobian_self_oplus_point_wrt_self(pt)
+    a.jacobian_self_oplus_point_wrt_point(pt)
+
+
 def _eval_inner(case):
     kind = case["kind"]
+    _prelude(kind)
     amb, cpt = I.AMBIENT[kind], I.COMPACT[kind]
     a = I.mk_pose(kind, case["a"])
     a_st = I.comps(a)
